@@ -11,6 +11,8 @@ pub enum BodySpec {
     Bytes(Vec<u8>),
     /// `len` copies of `byte` followed by `tail` (large bodies without large replay files)
     Fill { byte: u8, len: usize, tail: String },
+    /// `unit` repeated `times` times
+    Repeat { unit: String, times: usize },
 }
 
 impl BodySpec {
@@ -23,6 +25,7 @@ impl BodySpec {
                 v.extend_from_slice(tail.as_bytes());
                 v
             }
+            BodySpec::Repeat { unit, times } => unit.repeat(*times).into_bytes(),
         }
     }
 }
@@ -123,6 +126,7 @@ impl ReqSpec {
             BodySpec::None => Value::Null,
             BodySpec::Bytes(b) => json!({"bytes": escape_bytes(b)}),
             BodySpec::Fill { byte, len, tail } => json!({"fill": *byte, "len": len, "tail": tail}),
+            BodySpec::Repeat { unit, times } => json!({"repeat": unit, "times": times}),
         };
         let framing = match &self.framing {
             Framing::None => json!("none"),
@@ -142,6 +146,10 @@ impl ReqSpec {
         let s = |k: &str, d: &str| v.get(k).and_then(|x| x.as_str()).unwrap_or(d).to_string();
         let body = match v.get("body") {
             Some(b) if b.get("bytes").is_some() => BodySpec::Bytes(unescape_bytes(b["bytes"].as_str().unwrap_or(""))),
+            Some(b) if b.get("repeat").is_some() => BodySpec::Repeat {
+                unit: b["repeat"].as_str().unwrap_or("").to_string(),
+                times: b["times"].as_u64().unwrap_or(1) as usize,
+            },
             Some(b) if b.get("fill").is_some() => BodySpec::Fill {
                 byte: b["fill"].as_u64().unwrap_or(32) as u8,
                 len: b["len"].as_u64().unwrap_or(0) as usize,
